@@ -550,4 +550,6 @@ def run(src, out):
     childgen.run(src, out, hdr)
     import paretogen
     paretogen.run(src, out, hdr)
+    import pessgen
+    pessgen.run(src, out, hdr)
     return hdr
